@@ -14,7 +14,17 @@ use vh_common::*;
 
 const NR: usize = 6; // resources 0 = XRD, 1..4 fungible, 5 non-fungible (integer ids)
 const NF: usize = 5;
-const NBADGE: usize = 3; // 0 = Resource(badge resource), 1 = NonFungible(nf:#1#), 2 = Resource(other)
+const NBADGE: usize = 5; // 0 = Resource(b0), 1 = NonFungible(nf:#1#), 2 = Resource(b2), 3 = NonFungible(nf:#2#), 4 = Resource(nf)
+const NPROVABLE: usize = 4; // badges 0..3 can be proven directly; 4 is satisfied by any proof of nf (1 or 3)
+
+/// the badges satisfied by an auth zone holding proofs of the given badges
+fn satisfied(proofs: &[usize]) -> Vec<usize> {
+    let mut v: Vec<usize> = proofs.to_vec();
+    if (proofs.contains(&1) || proofs.contains(&3)) && !v.contains(&4) {
+        v.push(4);
+    }
+    v
+}
 
 #[derive(Clone, Copy, PartialEq, Eq, Debug)]
 enum DefaultRule {
@@ -109,6 +119,8 @@ impl World {
             ResourceOrNonFungible::Resource(b0),
             ResourceOrNonFungible::NonFungible(NonFungibleGlobalId::new(nf, NonFungibleLocalId::integer(1))),
             ResourceOrNonFungible::Resource(b2),
+            ResourceOrNonFungible::NonFungible(NonFungibleGlobalId::new(nf, NonFungibleLocalId::integer(2))),
+            ResourceOrNonFungible::Resource(nf),
         ];
         // plenty of XRD for the depositor
         for _ in 0..3 {
@@ -371,7 +383,7 @@ fn op_coq(o: &Op) -> String {
             variant_coq(*v),
             buckets_coq(b),
             coq_option(named.map(|x| x.to_string())),
-            coq_list(proofs.iter().map(|x| x.to_string()))
+            coq_list(satisfied(proofs).iter().map(|x| x.to_string()))
         ),
         Op::Deposit(b) => format!("(ODeposit {})", buckets_coq(b)),
         Op::Withdraw(r, a) => format!("(OWithdraw {} {})", r, coq_z(*a)),
@@ -444,11 +456,11 @@ fn gen_op(rng: &mut Rng, obs: &Obs) -> Op {
         let mut proofs = Vec::new();
         if let Some(b) = named {
             if rng.chance(3, 5) {
-                proofs.push(b);
+                proofs.push(if b == 4 { *rng.pick(&[1usize, 3]) } else { b });
             }
         }
         if rng.chance(1, 6) {
-            let x = rng.usize_below(NBADGE);
+            let x = rng.usize_below(NPROVABLE);
             if !proofs.contains(&x) {
                 proofs.push(x);
             }
@@ -483,10 +495,14 @@ struct Case {
     bystander_fails: Vec<String>,
 }
 
-fn run_case(w: &mut World, rng: &mut Rng, len: usize, matrix: Option<usize>) -> Case {
+fn run_case(w: &mut World, rng: &mut Rng, len: usize, matrix: Option<usize>, script: Option<(bool, Vec<Op>)>) -> Case {
     // two out of three random cases start from an account WITHOUT an XRD vault (an account created by
     // `new_account` is funded from the faucet, which would hide the XRD clause of AllowExisting)
-    let (pk, acct) = if matrix.is_none() && !rng.chance(1, 3) {
+    let no_xrd_vault = match &script {
+        Some((nv, _)) => *nv,
+        None => matrix.is_none() && !rng.chance(1, 3),
+    };
+    let (pk, acct) = if no_xrd_vault {
         let (pk, _) = w.ledger.new_key_pair();
         let manifest = ManifestBuilder::new()
             .lock_fee_from_faucet()
@@ -522,9 +538,13 @@ fn run_case(w: &mut World, rng: &mut Rng, len: usize, matrix: Option<usize>) -> 
             }
         }
     }
-    let n = if matrix.is_some() { ops.len() } else { len };
+    if let Some((_, sops)) = &script {
+        ops = sops.clone();
+    }
+    let scripted = matrix.is_some() || script.is_some();
+    let n = if scripted { ops.len() } else { len };
     for k in 0..n {
-        let op = if matrix.is_some() { ops[k].clone() } else { gen_op(rng, &obs) };
+        let op = if scripted { ops[k].clone() } else { gen_op(rng, &obs) };
         let out = w.run_op(acct, pk, &op);
         obs = w.observe(acct);
         dep_before.push(w.dep_balances());
@@ -571,7 +591,7 @@ fn oracle(c: &Case) -> Vec<String> {
             };
             let all_allowed = buckets.iter().all(|(r, _)| allowed(*r));
             let listed = named.map(|b| before.auth.contains(&b)).unwrap_or(false);
-            let proven = named.map(|b| proofs.contains(&b)).unwrap_or(false);
+            let proven = named.map(|b| satisfied(proofs).contains(&b)).unwrap_or(false);
             let refund = matches!(v, Variant::SingleRefund | Variant::BatchRefund);
             let config_same = before.default == after.default && before.prefs == after.prefs && before.auth == after.auth;
             if !config_same {
@@ -611,6 +631,145 @@ fn oracle(c: &Case) -> Vec<String> {
     fails
 }
 
+/// Deterministic boundary family (identical for every seed); (name, account without XRD vault?, ops)
+fn boundary_scripts() -> Vec<(&'static str, bool, Vec<Op>)> {
+    use DefaultRule::*;
+    use Variant::*;
+    let t = |v: Variant, b: Vec<(usize, i64)>, named: Option<usize>, proofs: Vec<usize>| Op::Try(v, b, named, proofs);
+    let mut out = Vec::new();
+    // AllowExisting: XRD without a vault, a vault that exists but is empty (emptied / created by an empty
+    // bucket), empty buckets of unknown resources, fungible and non-fungible
+    out.push((
+        "allow_existing_empty_vault",
+        true,
+        vec![
+            Op::SetDefault(AllowExisting),
+            t(SingleRefund, vec![(1, 3)], None, vec![]),
+            t(SingleRefund, vec![(0, 1)], None, vec![]),
+            Op::Deposit(vec![(1, 5)]),
+            Op::Withdraw(1, 5),
+            t(SingleAbort, vec![(1, 1)], None, vec![]),
+            Op::Deposit(vec![(2, 0)]),
+            t(BatchAbort, vec![(2, 4)], None, vec![]),
+            t(SingleRefund, vec![(3, 0)], None, vec![]),
+            t(BatchRefund, vec![(3, 0), (1, 0)], None, vec![]),
+            t(SingleAbort, vec![(NF, 1)], None, vec![]),
+            Op::Deposit(vec![(NF, 1)]),
+            Op::Withdraw(NF, 1),
+            t(BatchRefund, vec![(NF, 2), (0, 0)], None, vec![]),
+            Op::Withdraw(0, 1),
+            t(SingleAbort, vec![(0, 0)], None, vec![]),
+        ],
+    ));
+    // the authorized-depositor badge by resource and by non-fungible id
+    out.push((
+        "badge_kinds",
+        false,
+        vec![
+            Op::SetDefault(Reject),
+            Op::AddAuth(1),
+            t(SingleRefund, vec![(1, 1)], Some(1), vec![1]),
+            t(SingleRefund, vec![(1, 1)], Some(1), vec![3]),
+            t(SingleAbort, vec![(1, 1)], Some(1), vec![3]),
+            t(SingleRefund, vec![(1, 1)], Some(3), vec![3]),
+            t(BatchRefund, vec![(1, 1)], Some(4), vec![1]),
+            t(BatchAbort, vec![(1, 1)], Some(4), vec![1]),
+            Op::AddAuth(4),
+            t(BatchRefund, vec![(1, 1)], Some(4), vec![3]),
+            t(BatchAbort, vec![(1, 1)], Some(4), vec![1]),
+            t(SingleAbort, vec![(1, 1)], Some(4), vec![]),
+            t(SingleRefund, vec![(1, 1)], Some(4), vec![0, 2]),
+            Op::RemoveAuth(1),
+            t(SingleRefund, vec![(1, 1)], Some(1), vec![1]),
+            t(SingleAbort, vec![(1, 1)], Some(1), vec![1]),
+            Op::AddAuth(0),
+            Op::AddAuth(0),
+            t(SingleRefund, vec![(1, 1)], Some(0), vec![0]),
+            t(SingleRefund, vec![(1, 1)], Some(0), vec![2]),
+            t(BatchAbort, vec![(1, 1)], Some(0), vec![]),
+            Op::RemoveAuth(0),
+            Op::RemoveAuth(0),
+            t(BatchRefund, vec![(1, 1)], Some(0), vec![0]),
+            Op::RemoveAuth(2),
+        ],
+    ));
+    // batches: the refused bucket first / middle / last / duplicated / alone / empty; empty batch; all variants
+    let mut ops = vec![Op::SetDefault(Accept), Op::SetPref(2, Pref::Disallowed)];
+    for v in [BatchRefund, BatchAbort] {
+        for b in [
+            vec![(2, 1), (1, 1), (3, 1)],
+            vec![(1, 1), (2, 1), (3, 1)],
+            vec![(1, 1), (3, 1), (2, 1)],
+            vec![(2, 1), (2, 2)],
+            vec![(2, 1), (1, 1), (2, 0)],
+            vec![(2, 0)],
+            vec![],
+            vec![(1, 0)],
+            vec![(1, 1), (1, 2), (1, 0)],
+            vec![(NF, 1), (2, 1)],
+        ] {
+            ops.push(t(v, b, None, vec![]));
+        }
+    }
+    for v in [SingleRefund, SingleAbort] {
+        ops.push(t(v, vec![(2, 1)], None, vec![]));
+        ops.push(t(v, vec![(1, 1)], None, vec![]));
+        // a named badge is irrelevant when everything is allowed, listed or not, proven or not
+        ops.push(t(v, vec![(1, 1)], Some(2), vec![]));
+        ops.push(t(v, vec![(1, 1)], Some(2), vec![2]));
+    }
+    out.push(("batch_positions", false, ops));
+    // preferences against each default rule: set, overwrite, remove, remove again
+    out.push((
+        "preferences",
+        false,
+        vec![
+            Op::SetDefault(Reject),
+            t(SingleRefund, vec![(1, 1)], None, vec![]),
+            Op::SetPref(1, Pref::Allowed),
+            t(SingleRefund, vec![(1, 1)], None, vec![]),
+            Op::SetPref(1, Pref::Disallowed),
+            t(SingleRefund, vec![(1, 1)], None, vec![]),
+            Op::RemovePref(1),
+            t(SingleAbort, vec![(1, 1)], None, vec![]),
+            Op::SetDefault(Accept),
+            t(SingleAbort, vec![(1, 1)], None, vec![]),
+            Op::SetPref(1, Pref::Disallowed),
+            t(BatchAbort, vec![(1, 1)], None, vec![]),
+            Op::RemovePref(1),
+            Op::RemovePref(1),
+            t(BatchAbort, vec![(1, 1)], None, vec![]),
+            Op::SetDefault(AllowExisting),
+            t(SingleRefund, vec![(4, 1)], None, vec![]),
+            Op::SetPref(4, Pref::Allowed),
+            t(SingleRefund, vec![(4, 1)], None, vec![]),
+            Op::SetPref(1, Pref::Disallowed),
+            t(SingleRefund, vec![(1, 1)], None, vec![]),
+            Op::SetPref(0, Pref::Disallowed),
+            t(SingleRefund, vec![(0, 1)], None, vec![]),
+            Op::SetDefault(AllowExisting),
+        ],
+    ));
+    // owner withdrawals at the balance: balance + 1, exactly, from an empty vault, without a vault, zero
+    out.push((
+        "withdraw_limits",
+        true,
+        vec![
+            Op::Deposit(vec![(1, 5), (NF, 2)]),
+            Op::Withdraw(1, 6),
+            Op::Withdraw(1, 5),
+            Op::Withdraw(1, 1),
+            Op::Withdraw(1, 0),
+            Op::Withdraw(2, 0),
+            Op::Withdraw(2, 1),
+            Op::Withdraw(NF, 3),
+            Op::Withdraw(NF, 2),
+            Op::Withdraw(0, 1),
+        ],
+    ));
+    out
+}
+
 fn main() {
     let args = Args::parse();
     let mut report = Report::new(
@@ -625,12 +784,23 @@ fn main() {
     let mut cw = CaseWriter::new("RV.Corr.C39_run RV.Model.C39_AccountDeposit", "check");
     let root = Rng::new(args.seed);
     let mut worlds = [World::new(false), World::new(true)];
-    let total = args.cases.max(40);
+    let bf = boundary_scripts();
+    let total = args.cases.max(2 * (18 + bf.len()) + 4);
     for i in 0..total {
         let mut rng = root.fork(i as u64);
         let w = &mut worlds[i % 2];
         let k = i / 2;
-        let case = if k < 18 { run_case(w, &mut rng, 0, Some(k)) } else { let len = rng.range(6, 22) as usize; run_case(w, &mut rng, len, None) };
+        let case = if k < 18 {
+            report.count("bf.matrix");
+            run_case(w, &mut rng, 0, Some(k), None)
+        } else if k < 18 + bf.len() {
+            let (name, nv, ops) = &bf[k - 18];
+            report.count(&format!("bf.{}", name));
+            run_case(w, &mut rng, 0, None, Some((*nv, ops.clone())))
+        } else {
+            let len = rng.range(6, 22) as usize;
+            run_case(w, &mut rng, len, None, None)
+        };
         let mut n_dep = 0;
         let mut n_ref = 0;
         let mut n_fail = 0;
@@ -680,6 +850,12 @@ fn main() {
             coq_list(case.steps.iter().map(|(o, out, obs)| format!("({}, {}, {})", op_coq(o), out_coq(out), obs_coq(obs))))
         ));
     }
+    report.floor("bf.matrix", 36);
+    for (name, ..) in &bf {
+        report.floor(&format!("bf.{}", name), 2);
+    }
+    report.floor("other.out.EVault", 6);
+    report.floor("try.out.ENotAnAuthorizedDepositor", 20);
     report.floor("try.out.Deposited", total as u64);
     report.floor("try.out.Refunded", (total as u64) / 4);
     report.floor("try.out.EBadgeNotPresent", (total as u64) / 30);
